@@ -162,6 +162,8 @@ pub struct Sim {
     fds: HashMap<c_int, FdInfo>,
     classes: HashMap<c_int, FdClass>,
     owed: BTreeMap<c_int, u32>,
+    /// debugging aid (VERIF_SIM_TRACE): subject writes and delivered event batches go to the log
+    trace_io: bool,
     points_used: HashMap<(FdClass, bool), u32>,
     syscalls_since_wait: u64,
     paced_this_turn: usize,
@@ -185,6 +187,7 @@ impl Sim {
             fds: HashMap::new(),
             classes: HashMap::new(),
             owed: BTreeMap::new(),
+            trace_io: std::env::var_os("VERIF_SIM_TRACE").is_some(),
             points_used: HashMap::new(),
             syscalls_since_wait: 0,
             paced_this_turn: 0,
@@ -361,6 +364,9 @@ impl SimHooks for Sim {
                     self.pending_events.extend_from_slice(&ready[k..]);
                 }
                 out[..k].copy_from_slice(&ready[..k]);
+                if self.trace_io {
+                    self.log.push(format!("t={} epoll_wait -> {:?}", self.clock_ns - crate::interpose::VIRTUAL_EPOCH_NS, ready[..k].iter().map(|e| (e.u64, e.events)).collect::<Vec<_>>()));
+                }
                 return k as c_int;
             }
             if progressed {
@@ -478,6 +484,9 @@ impl SimHooks for Sim {
         self.syscalls_since_wait += 1;
         self.stats.subject_writes += 1;
         let class = self.class_of(fd);
+        if self.trace_io {
+            self.log.push(format!("t={} write fd={fd} {class:?} len={len} paced={}", self.clock_ns - crate::interpose::VIRTUAL_EPOCH_NS, self.paced_this_turn));
+        }
         if let Some((c, per_turn)) = self.profile.pace_write {
             if c == class {
                 let left = per_turn.saturating_sub(self.paced_this_turn);
